@@ -570,6 +570,10 @@ def apply_lifts(toks: List[Tok], lifts: List[Lift], rep: Report, fn: str, leafs:
             raise Undecided(f"overlapping lifts in {fn}")
     pending = []
     for (lo, hi), lf in reversed(locs):
+        stub = False
+        if lf.sig.lstrip().startswith("stub "):
+            stub = True
+            lf = Lift(lf.mode, lf.key, lf.k, lf.sig.lstrip()[5:], lf.args)
         m = re.match(r"^\s*fn\s+([A-Za-z_][A-Za-z0-9_]*)\s*(<[^()]*>)?\s*\((.*?)\)\s*(->.*|requires.*|ensures.*)?$", lf.sig, re.S)
         if not m:
             raise Undecided(f"bad lift signature: {lf.sig[:60]}")
@@ -587,8 +591,9 @@ def apply_lifts(toks: List[Tok], lifts: List[Lift], rep: Report, fn: str, leafs:
         cut = toks[lo:hi + 1]
         if any(t.kind == "ident" and t.text in ("return", "break", "continue") for t in cut) or any(is_p(t, "?") for t in cut):
             raise Undecided(f"lift {lname}: expression contains control flow")
-        pending.append((lf.sig, cut, is_method))
-        rep.lifts.append({"name": lname, "fn": fn, "anchor": f"{lf.mode} {lf.key}#{lf.k}", "text": render(cut).strip()})
+        pending.append((lf.sig, cut if not stub else None, is_method))
+        rep.lifts.append({"name": lname, "fn": fn, "anchor": f"{lf.mode} {lf.key}#{lf.k}", "text": render(cut).strip(),
+                          "body_emitted": not stub})
         rep.rule("R6 lift expression to external_body leaf")
         call = syn(("self." if is_method else "") + f"{lname}({lf.args or ', '.join(args)})", cut[0].pos, cut[0].ws)
         toks = toks[:lo] + [call] + toks[hi + 1:]
@@ -877,9 +882,9 @@ class UnitBuilder:
         leafs: List[tuple] = []
         if fs.kind == "fn":
             n_ret = sum(1 for t in body if t.kind == "ident" and t.text == "return")
-            body = apply_lifts(body, fs.lifts, self.rep, fnq, leafs)
             if fs.desugar_try:
                 body = rule_R10(body, fs.desugar_try, self.rep, fnq)
+            body = apply_lifts(body, fs.lifts, self.rep, fnq, leafs)
             for k in sorted(fs.foreach, reverse=True):
                 body = rule_R7(body, k, self.rep, fnq)
             body = rule_R1(body, self.rep)
@@ -1018,9 +1023,12 @@ class UnitBuilder:
                 ty = imp.name.split(" for ")[-1] if is_trait else imp.name[len("impl "):]
                 self.out.text(f"impl {ty} {{\n", kind="gen")
             self.out.text("#[verifier::external_body]\npub " + sigtxt.strip() + "\n{ ", kind="gen")
-            cut = list(cut)
-            cut[0] = Tok(cut[0].kind, cut[0].text, cut[0].pos, "")
-            self.out.toks(cut, s, fnq + " (lift)")
+            if cut is None:
+                self.out.text("unimplemented!() /* lifted expression not emitted (type adapted in the signature) */", kind="gen")
+            else:
+                cut = list(cut)
+                cut[0] = Tok(cut[0].kind, cut[0].text, cut[0].pos, "")
+                self.out.toks(cut, s, fnq + " (lift)")
             self.out.text(" }\n" + ("}\n" if is_method else ""), kind="gen")
 
     # -- fragments ---------------------------------------------------------
